@@ -197,10 +197,21 @@ func (dl *datalog) del(key []byte) error {
 	return nil
 }
 
+// sealSegment marks the segment as full and makes sure its content is durable.
+func (dl *datalog) sealSegment(seg *segment) error {
+	if seg.meta.Full {
+		return nil
+	}
+	seg.meta.Full = true
+	return seg.Sync()
+}
+
 func (dl *datalog) writeRecord(data []byte, rt recordType) (uint16, uint32, error) {
 	if dl.curSeg.meta.Full || dl.curSeg.size+int64(len(data)) > int64(dl.opts.maxSegmentSize) {
 		// Current segment is full, create a new one.
-		dl.curSeg.meta.Full = true
+		if err := dl.sealSegment(dl.curSeg); err != nil {
+			return 0, 0, err
+		}
 		if err := dl.swapSegment(); err != nil {
 			return 0, 0, err
 		}
